@@ -252,13 +252,31 @@ Definition load_step (acc : list (N * ver) * list ver) (f : ver) : list (N * ver
                    else (aset win (v_key f) f, del ++ [w])
        end.
 
-Definition reopen (m : mstate) : mstate :=
-  let (win, del) := fold_left load_step (map snd (m_kvf m)) ([], []) in
+(* insertion sort of an association list by key: the order in which Load fills
+   its Go maps is unspecified and unobservable; the model uses key order *)
+Fixpoint insert_amap {V} (k : N) (v : V) (l : list (N * V)) : list (N * V) :=
+  match l with
+  | [] => [(k, v)]
+  | (k', v') :: r => if N.leb k k' then (k, v) :: l else (k', v') :: insert_amap k v r
+  end.
+Definition sort_amap {V} (l : list (N * V)) : list (N * V) :=
+  fold_right (fun p acc => insert_amap (fst p) (snd p) acc) [] l.
+
+Definition load_winners (m : mstate) : list (N * ver) * list ver :=
+  fold_left load_step (map snd (m_kvf m)) ([], []).
+
+(* [g] is the value of the process-global counter found by Load: sequence.Set is a
+   compare-and-swap from 0, so a counter that is already non-zero is left alone *)
+Definition reopen_with (g : N) (m : mstate) : mstate :=
+  let (win, del) := load_winners m in
   let maxseq := fold_left (fun a p => N.max a (v_seq (snd p))) win 1 in
-  let stores := map (fun p => (fst p, [snd p])) win in
-  let m1 := mkm (if N.eqb (m_seq m) 0 then maxseq else m_seq m)   (* sequence.Set: CAS from 0 *)
+  let stores := sort_amap (map (fun p => (fst p, [snd p])) win) in
+  let m1 := mkm (if N.eqb g 0 then maxseq else g)   (* sequence.Set: CAS from 0 *)
                 [] [(0, stores)] stores (m_cont m) (m_kvf m) [] (m_nexttx m) (m_nextcid m) in
   enqueue m1 del.
+
+(* Close; Open in the same process: the counter keeps its value *)
+Definition reopen (m : mstate) : mstate := reopen_with (m_seq m) m.
 
 (* ---------- the step function ---------- *)
 Definition mstep (m : mstate) (o : op) : mstate * out :=
